@@ -176,19 +176,63 @@ def run_kani(unit, harnesses, here, out, repo, subst, bound_note, instance=None,
     return results
 
 
-def concrete_playback(unit, harness, here, out, repo, subst):
-    """re-run one failed harness with concrete playback to obtain the counterexample values"""
-    crate = os.path.join(out, "kani", unit)
-    tgt = os.path.join(out, "target-kani-" + unit)
+def concrete_playback(instance, harness, out):
+    """re-run one failed harness with concrete playback: returns the generated unit tests (source text)
+    for the failing checks (cover tests dropped)"""
+    crate = os.path.join(out, "kani", instance)
+    tgt = os.path.join(out, "target-kani-" + instance)
     cmd = ["cargo", "kani", "-Z", "function-contracts", "-Z", "stubbing", "-Z", "concrete-playback",
-           "--concrete-playback=print", "--harness", harness]
+           "--concrete-playback=print", "--output-format", "terse", "--harness", harness]
     env = dict(os.environ, CARGO_NET_OFFLINE="true", CARGO_TARGET_DIR=tgt)
     try:
         p = subprocess.run(cmd, cwd=crate, env=env, capture_output=True, text=True, timeout=1800)
     except subprocess.TimeoutExpired:
-        return None
-    m = re.search(r"```\n(.*?)```", p.stdout, re.S)
-    return m.group(1) if m else None
+        return []
+    tests = []
+    for m in re.finditer(r"```\n(.*?)```", p.stdout, re.S):
+        t = m.group(1)
+        if "Check for `cover`" in t:
+            continue
+        tests.append(t)
+    return tests
+
+
+def native_playback(instance, unit, tests, here, out, repo, subst):
+    """paste the playback tests next to the harnesses of a freshly generated crate and run them natively
+    (`cargo kani playback`): returns (reproduced: bool, output tail)"""
+    crate = os.path.join(out, "kani", instance)
+    tgt = os.path.join(out, "target-kani-" + instance)
+    if not os.path.isdir(crate):
+        generate(unit, here, out, repo, subst, instance)
+    # the harness files are `include!`d inside their module: appended tests land in the same module
+    names = []
+    for t in tests:
+        m = re.search(r"fn (kani_concrete_playback_\w+)\(", t)
+        if m:
+            names.append(m.group(1))
+    hm = re.search(r"concrete_playback_run\(concrete_vals, (\w+)\)", tests[0]) if tests else None
+    target_file = None
+    for root, _, fs in os.walk(os.path.join(crate, "src")):
+        for f in fs:
+            txt = open(os.path.join(root, f)).read()
+            if hm and re.search(r"fn " + hm.group(1) + r"\(", txt):
+                target_file = os.path.join(root, f)
+    if target_file is None:
+        return False, "harness source not found"
+    with open(target_file, "a") as f:
+        f.write("\n" + "\n".join(tests) + "\n")
+    env = dict(os.environ, CARGO_NET_OFFLINE="true", CARGO_TARGET_DIR=tgt)
+    cmd = ["cargo", "kani", "playback", "-Z", "concrete-playback", "--", "kani_concrete_playback"]
+    try:
+        p = subprocess.run(cmd, cwd=crate, env=env, capture_output=True, text=True, timeout=1800)
+    except subprocess.TimeoutExpired:
+        return False, "playback timeout"
+    outp = p.stdout + p.stderr
+    # a playback test that runs PAST the recorded counterexample asks for more values than were
+    # recorded ("Not enough det vals found"): that is "no longer fails", not a reproduction
+    panics = re.findall(r"panicked at [^\n]*\n([^\n]*)", outp)
+    real = [m for m in panics if "Not enough det vals" not in m]
+    return bool(real), ("; ".join(real)[:600] + "\n" + outp[-900:])
 
 
 class _Fut:
